@@ -1,10 +1,9 @@
 """C18 - used-timezone discovery is complete; adding missing timezones closes it.
 
-Decided: TOTAL (the two queries let nothing escape), COVER (the scan consumes
-every value of every property of every nested component, unfiltered, and
-reads the TZID through a guarded .params), CLOSE (the id queried is the id
-stored in the generated VTIMEZONE; unknown ids are skipped; nothing else is
-added).  Not decided: that the generated VTIMEZONE is correct (C13).
+Decided: TOTAL (the two queries let nothing escape: E3), COVER/MODEL (E7:
+get_used_tzids, get_missing_tzids, add_missing_timezones and property_items
+interpreted on abstract calendars and compared with the statement), CLOSE
+(from_tzinfo stores the id it is given as TZID).  Not decided: that the generated VTIMEZONE is correct (C13).
 """
 import ast
 
@@ -19,9 +18,10 @@ def run(ctx):
     m = ctx.model
     ctx.explanation = (
         "exception-escape analysis of Calendar.get_used_tzids / get_missing_tzids "
-        "(nothing may escape); shape of the scan over property_items; parameter "
-        "pass-through add_missing_timezones -> Timezone.from_tzid -> from_tzinfo "
-        "-> add('TZID', …) by def-use expansion.")
+        "(nothing may escape); abstract interpretation (E7) of get_used_tzids, "
+        "get_missing_tzids, add_missing_timezones (with Timezone.from_tzid) and "
+        "property_items on abstract calendars; def-use of the tzid argument of "
+        "Timezone.from_tzinfo into add('TZID', …).")
     cal = m.cls("cal.Calendar")
     eff = Effects(m, SAFE_TABLE)
     # ---- TOTAL ------------------------------------------------------------
@@ -42,126 +42,30 @@ def run(ctx):
                          witness="a calendar with a VTIMEZONE that no property uses / without TZID")
         ctx.ok("C18/TOTAL", f"Calendar.{name} analysed", f.loc(),
                f"{len(eff.cg.cone([f]))} functions in the cone, {n} escapes")
-    # ---- COVER ------------------------------------------------------------
+    # ---- COVER / CLOSE: the three functions interpreted on abstract calendars
+    from .. import treemodel
     gu = cal.methods["get_used_tzids"]
-    loops = [n for n in walk_no_nested(gu.node) if isinstance(n, ast.For)]
-    if len(loops) != 1:
-        raise AnalysisError("get_used_tzids: scan loop not found")
-    lp = loops[0]
-    it = lp.iter
-    ok_src = (isinstance(it, ast.Call) and isinstance(it.func, ast.Attribute)
-              and it.func.attr == "property_items" and isinstance(it.func.value, ast.Name)
-              and it.func.value.id == gu.params[0])
-    rec_off = ok_src and (any(k.arg == "recursive" and isinstance(k.value, ast.Constant)
-                              and not k.value.value for k in it.keywords)
-                          or (it.args and isinstance(it.args[0], ast.Constant) and not it.args[0].value))
-    ctx.check(ok_src and not rec_off, "C18/COVER", "scan consumes property_items recursively",
-              "get_used_tzids must iterate self.property_items(...) with recursion on: nested "
-              "components (VEVENT in VCALENDAR, VALARM in VEVENT) carry the TZIDs", gu.loc(lp),
-              detail="for name, value in self.property_items(sorted=False)")
-    tgt_names = [e.id for e in lp.target.elts] if isinstance(lp.target, ast.Tuple) else []
-    if len(tgt_names) != 2:
-        raise AnalysisError("get_used_tzids: loop target is not (name, value)")
-    name_v, value_v = tgt_names
-    # no filtering by property name; the only condition is the params guard on the value
-    conds = [n for n in ast.walk(lp) if isinstance(n, ast.If)]
-    name_filters = [c for c in conds if any(isinstance(x, ast.Name) and x.id == name_v
-                                            for x in ast.walk(c.test))]
-    skips = [n for n in ast.walk(lp) if isinstance(n, (ast.Continue, ast.Break))]
-    ctx.check(not name_filters and not skips, "C18/COVER", "no filtering by property name",
-              f"the scan only looks at some property names (`{dump(name_filters[0].test)[:60] if name_filters else 'continue/break'}`): "
-              f"a TZID on any other property (e.g. FREEBUSY, an X- property) is never "
-              f"reported used or missing", gu.loc(name_filters[0]) if name_filters else gu.loc(lp),
-              witness="FREEBUSY;TZID=Europe/Berlin:...", detail="every (name, value) is inspected")
-    adds = [c for c in ast.walk(lp) if isinstance(c, ast.Call) and isinstance(c.func, ast.Attribute)
-            and c.func.attr == "add"]
-    ok_read = False
-    for c in adds:
-        a = c.args[0] if c.args else None
-        ok_read |= (isinstance(a, ast.Call) and isinstance(a.func, ast.Attribute) and a.func.attr == "get"
-                    and isinstance(a.func.value, ast.Attribute) and a.func.value.attr == "params"
-                    and isinstance(a.func.value.value, ast.Name) and a.func.value.value.id == value_v
-                    and a.args and isinstance(a.args[0], ast.Constant) and str(a.args[0].value).upper() == "TZID")
-    guard = [c for c in conds if "hasattr" in dump(c.test) and "params" in dump(c.test)] or \
-        ["getattr" in dump(lp)]
-    ctx.check(ok_read and bool(guard), "C18/COVER", "TZID read through a guarded .params",
-              "each value's TZID must be read with value.params.get('TZID') under a hasattr/getattr guard",
-              gu.loc(lp), detail="if hasattr(value, 'params'): result.add(value.params.get('TZID'))")
-    rets = [r for r in walk_no_nested(gu.node) if isinstance(r, ast.Return)]
-    ctx.check(len(rets) == 1 and isinstance(rets[0].value, ast.BinOp) and isinstance(rets[0].value.op, ast.Sub)
-              and "None" in dump(rets[0].value.right), "C18/COVER", "only None is removed from the result",
-              "get_used_tzids must return the collected set minus {None}", gu.loc(), detail="result - {None}")
-    # property_items yields every value of list-valued properties and recurses over all subcomponents
-    from .c10 import balanced_rule
-    balanced_rule(ctx, "C18/COVER")
-    # get_missing_tzids: used ids minus the TZIDs of the VTIMEZONEs present
-    gm = cal.methods["get_missing_tzids"]
-    src = dump(gm.node)
-    ok_m = "get_used_tzids()" in src and ".timezones" in src and (".discard(" in src or "-" in src)
-    rets = [r for r in walk_no_nested(gm.node) if isinstance(r, ast.Return)]
-    ctx.check(ok_m and len(rets) == 1, "C18/COVER", "missing = used minus present",
-              "get_missing_tzids must start from get_used_tzids() and remove the tz_name of "
-              "each VTIMEZONE in self.timezones", gm.loc(), detail="discard(timezone.tz_name)")
-    tzs = cal.properties.get("timezones", {}).get("get")
-    ctx.check(tzs is not None and 'walk("VTIMEZONE")' in dump(tzs.node).replace("'", '"'),
-              "C18/COVER", "timezones walks VTIMEZONE", "Calendar.timezones must walk for VTIMEZONE",
-              tzs.loc() if tzs else cal.loc(), detail='self.walk("VTIMEZONE")')
-    # ---- CLOSE ------------------------------------------------------------
+    treemodel.report(ctx, "C18/COVER", treemodel.explore_emit,
+                     "property_items yields every value of every nested component",
+                     m.func("cal.Component.property_items").loc(), 200)
+    n, fails = treemodel.report(ctx, "C18/MODEL", treemodel.explore_tzids,
+                                "used/missing/add_missing_timezones on abstract calendars",
+                                gu.loc(), 30)
     am = cal.methods.get("add_missing_timezones")
     if am is None:
         raise AnalysisError("anchor vanished: Calendar.add_missing_timezones")
-    loops = [n for n in walk_no_nested(am.node) if isinstance(n, ast.For)]
-    if len(loops) != 1 or not isinstance(loops[0].target, ast.Name):
-        raise AnalysisError("add_missing_timezones: loop over the missing ids not found")
-    lp = loops[0]
-    idv = lp.target.id
-    src_ok = "get_missing_tzids()" in dump(lp.iter)
-    ctx.check(src_ok, "C18/CLOSE", "iterates the missing ids",
-              "add_missing_timezones must iterate self.get_missing_tzids()", am.loc(lp),
-              detail=dump(lp.iter)[:50])
-    calls = [c for c in ast.walk(lp) if isinstance(c, ast.Call) and isinstance(c.func, ast.Attribute)
-             and c.func.attr == "from_tzid"]
-    ok_pass = len(calls) == 1 and calls[0].args and isinstance(calls[0].args[0], ast.Name) \
-        and calls[0].args[0].id == idv
-    ctx.check(ok_pass, "C18/CLOSE", "queried id passed to from_tzid unchanged",
-              "the id taken from get_missing_tzids must be passed to Timezone.from_tzid as is",
-              am.loc(lp), detail=f"Timezone.from_tzid({idv}, …)")
-    tries = [t for t in ast.walk(lp) if isinstance(t, ast.Try)]
-    skip_ok = bool(tries) and any(
-        [x.id for x in ast.walk(h.type) if isinstance(x, ast.Name)] == ["ValueError"]
-        and isinstance(h.body[-1], ast.Continue) for t in tries for h in t.handlers if h.type)
-    ctx.check(skip_ok, "C18/CLOSE", "unknown ids are skipped",
-              "a ValueError from from_tzid (unknown id) must skip that id only", am.loc(lp),
-              detail="except ValueError: continue")
-    addc = [c for c in ast.walk(lp) if isinstance(c, ast.Call) and isinstance(c.func, ast.Attribute)
-            and c.func.attr == "add_component"]
-    outside = [c for c in ast.walk(am.node) if isinstance(c, ast.Call) and isinstance(c.func, ast.Attribute)
-               and c.func.attr == "add_component" and not any(c is x for x in ast.walk(lp))]
-    ctx.check(len(addc) == 1 and not outside, "C18/CLOSE", "one VTIMEZONE per missing id",
-              "exactly the generated component of each missing id is added", am.loc(lp),
-              detail="self.add_component(timezone) once per id")
     tz = m.cls("cal.Timezone")
     ft = tz.methods.get("from_tzid")
     fti = tz.methods.get("from_tzinfo")
     if ft is None or fti is None:
         raise AnalysisError("anchor vanished: Timezone.from_tzid/from_tzinfo")
-    env = SymEnv(ft.node)
-    rets = [r for r in walk_no_nested(ft.node) if isinstance(r, ast.Return)]
-    ok_ft = False
-    for r in rets:
-        v = r.value
-        if isinstance(v, ast.Call) and isinstance(v.func, ast.Attribute) and v.func.attr == "from_tzinfo" \
-                and len(v.args) >= 2:
-            ok_ft = is_param(env.expand_at(v.args[1], r), ft.params[1])
-    ctx.check(ok_ft, "C18/CLOSE", "from_tzid passes its id through",
-              "Timezone.from_tzid must hand the id it was given, unchanged, to from_tzinfo (a "
-              "cleaned or normalised id gives a VTIMEZONE whose TZID no longer equals the used id)",
-              ft.loc(), witness="TZID=/Europe/Berlin", detail="cls.from_tzinfo(tz, tzid, …)")
     envi = SymEnv(fti.node)
     adds = [c for c in ast.walk(fti.node) if isinstance(c, ast.Call) and isinstance(c.func, ast.Attribute)
             and c.func.attr == "add" and c.args and isinstance(c.args[0], ast.Constant)
             and str(c.args[0].value).upper() == "TZID"]
     ok_fti = False
+    if len(adds) != 1:
+        raise AnalysisError(f"Timezone.from_tzinfo: expected one add('TZID', …), found {len(adds)}")
     if len(adds) == 1:
         e = envi.expand_at(adds[0].args[1])
         # tzid is only replaced when it was None
